@@ -20,7 +20,7 @@ shared state (link_successor, refcount/retired_at stores, tree removal, publicat
 except through add_write / add_replacement, which can only fail with ShuttingDown (shutdown flag writers and their callers
 are pinned). Not decided: that reads return the latest accepted value on every tier; equality with a reference map.
 """
-DECIDED = ["hash index and ordered index receive the same record for the same key at every publication site", "(a) strict last-writer-wins gate under the bucket guard", "(b) validate -> reserve -> publish; no error after publish"]
+DECIDED = ["both deferred-value walkers follow the predecessor chain until a generation with a sector (no iteration bound)", "hash index and ordered index receive the same record for the same key at every publication site", "(a) strict last-writer-wins gate under the bucket guard", "(b) validate -> reserve -> publish; no error after publish"]
 NOT_DECIDED = ["(c) reads return the latest accepted value on every tier", "(d) equality with a reference map over all sequences/configurations"]
 ASSUMPTIONS = ["scc's entry API is the only way to mutate the map (true by its types; mutation sites are enumerated)"]
 
@@ -228,7 +228,34 @@ def check_indexes(ctx):
     C14.check_pair(ctx, "C01.indexes")
 
 
+def check_deferred_walk(ctx):
+    """a TTL change on an offloaded value publishes a value-less generation that borrows its bytes from its predecessor; the
+    disk tier answers like the memory tier only if both walkers follow that chain to its end: the extent is read only once a
+    generation with a sector was reached, and the walk leaves its loop in no other way than value found / sector != 0 /
+    chain ended (an iteration bound would make long renewal chains unreadable)"""
+    inst = "C01.deferred-walk"
+    for fn in ("FeoxStore::load_value_from_disk", "write_buffer::prepare_deferred_record_data"):
+        b = ctx.fn(fn, inst)
+        if b is None:
+            continue
+        vs = ctx.sites(b, R.call("Record::value_source"), inst, floor=1)
+        aq = ctx.sites(b, R.call("Record::acquire_extent"), inst, exact=1)
+        def on_sector(bb, n):
+            return R.recv_expr(bb, n).has_field("Record", "sector")
+        ld = R.call("Atomic::load", "AtomicU64::load").filter(on_sector, "sector load")(b)
+        def has_sector(e):
+            return e.k == "bin" and e.extra == "Eq" and any(c.nid in ld for c in e.calls()) and e.has_const(val=0)
+        edges = A.pred_edges(b, has_sector, "false")
+        ctx.check(bool(edges), inst, "anchor", b.path, "the walk tests `sector != 0`", None)
+        R.guard(ctx, inst, b, aq, edges, "the extent is acquired only after the walk reached a generation that has a sector")
+        # no counted iteration around the walk
+        bounded = [n.id for n in b.calls() if R.call_matches(n.ev, "Iterator::next") and "Range" in (n.ev.get("arg_tys") or [""])[0]]
+        r, _ = A.reach(b, A.succs(b, vs[-1])) if vs else ({}, None)
+        ctx.check(not any(x in r for x in bounded), inst, "FORBID", b.path, "the chain walk is not cut short by an iteration bound", None)
+
+
 def check(ctx):
+    check_deferred_walk(ctx)
     check_gate(ctx)
     check_validate(ctx)
     check_noerr(ctx)
